@@ -90,6 +90,9 @@ TEMPLATES = [
     T("import", ["import math", "[math.floor(1.5), $a]"], ["import"]),
     T("import_from", ["from os.path import basename as bn", "[bn('/x/y'), $a]"], ["import"]),
     T("class_body", ["class K:", "    v = $a", "K.v"], ["class"]),
+    # --- the explicit handle on the evaluated config (eval.py:99-102)
+    T("ayns_cfg", ["t = 1", "[t, ayns.cfg.$a]"], ["ayns"], hist=True),
+    T("ayns_cfg_expr", ["ayns.cfg.$a"], ["ayns", "expression"]),
     # --- user-code exceptions
     T("raise_exec", ["raise ValueError($a)", "0"], ["raise"]),
     T("raise_eval", ["[$a][1]"], ["raise", "expression"], hist=True),
@@ -347,10 +350,16 @@ def describe_text(pid, text, kind, names, supplied, feats=(), tmpl=""):
     ex, ev, nlines = split_code(text)
     gbls = {n: "X:" + n for n in supplied}
     events, raised = [], None
+    phase = ["exec"]
+
+    class _Cfg:          # stands for ayns.cfg while tracing: logs which entries the program reads
+        def __getattr__(self, n):
+            events.append({"op": "ayns", "name": n, "phase": phase[0], "scope": "module", "depth": 0})
+            return "X:" + n
+    gbls["ayns"] = types.SimpleNamespace(cfg=_Cfg())
     cex = compile(ex, "<c12-exec>", "exec")
     cev = compile(ev, "<c12-eval>", "eval")
     scopes = {"<c12-exec>": _scope_map(ex, "exec") if ex.strip() else {}, "<c12-eval>": _scope_map(ev, "eval")}
-    phase = ["exec"]
     try:
         _trace_events(cex, scopes, "exec", gbls, "exec", events)
         phase[0] = "eval"
@@ -363,8 +372,8 @@ def describe_text(pid, text, kind, names, supplied, feats=(), tmpl=""):
     internal = set()
     slotnames = set(names.values())
     for e in events:
-        if e["name"].startswith("__") and e["op"] != "raise":
-            continue                              # __name__ / __module__ of a class body: not names of the program
+        if e["op"] != "raise" and (e["name"].startswith("__") or (e["name"] == "ayns" and e["op"] == "use")):
+            continue      # __name__ / __module__ of a class body, the name ayns itself (eval.py:203): not names of the program
         isslot = e["name"] in names and e["op"] != "raise"
         nm = names[e["name"]] if isslot else e["name"]
         e = dict(e, name=nm)
@@ -576,10 +585,22 @@ def run_impl(builds, out):
         out.flush()
 
 
+class _AynsCfg:
+    """what ayns.cfg is for the native run: the evaluated entries of the config, KeyError for others (eval_context.py:41-44)"""
+    def __init__(self, d):
+        self.__dict__["_d"] = d
+
+    def __getattr__(self, n):
+        if n in self._d:
+            return self._d[n]
+        raise KeyError(n)
+
+
 def run_native(builds, out):
     """child: the reference - exec / eval of the same text with plain globals holding the resolved names"""
     for b in builds:
         g = dict(b["globals"])
+        g["ayns"] = types.SimpleNamespace(cfg=_AynsCfg(g.pop("ayns.cfg", {})))
         ex, ev, _ = split_code(b["text"])
         try:
             exec(compile(ex, "<c12>", "exec"), g)
@@ -590,7 +611,27 @@ def run_native(builds, out):
         out.flush()
 
 
-def _forked(fn, builds, timeout=20):
+class _Tagged:
+    def __init__(self, out, tag):
+        self.out, self.tag = out, tag
+
+    def write(self, line):
+        self.out.write(self.tag + " " + line)
+
+    def flush(self):
+        self.out.flush()
+
+
+def run_job(job, out):
+    """child: the native reference runs first (they cannot disturb the library), then the library"""
+    for key in job.get("natives", []):          # names of per-build globals variants: "globals", "globals_asis"
+        run_native([dict(b, globals=b.get(key) or {}) for b in job["builds"]], _Tagged(out, key))
+    if job.get("impl", True):
+        run_impl(job["builds"], _Tagged(out, "impl"))
+
+
+def _forked(job, timeout=30):
+    """runs the job in a forked child; -> {tag: [outcome per build]}; a build the child died in is Crash / Hang"""
     r, w = os.pipe()
     pid = os.fork()
     if pid == 0:
@@ -599,7 +640,7 @@ def _forked(fn, builds, timeout=20):
             signal.alarm(timeout)
             sys.setrecursionlimit(400)
             with os.fdopen(w, "w") as out:
-                fn(builds, out)
+                run_job(job, out)
             os._exit(0)
         except BaseException:  # noqa
             os._exit(3)
@@ -607,33 +648,47 @@ def _forked(fn, builds, timeout=20):
     with os.fdopen(r) as f:
         data = f.read()
     _, status = os.waitpid(pid, 0)
-    res = []
+    res = {key: [] for key in job.get("natives", [])}
+    if job.get("impl", True):
+        res["impl"] = []
     for line in data.splitlines():
+        tag, _, body = line.partition(" ")
         try:
-            res.append(json.loads(line))
+            res[tag].append(json.loads(body))
         except Exception:
             break
-    if len(res) < len(builds):
-        if os.WIFSIGNALED(status):
-            sig = os.WTERMSIG(status)
-            res.append({"kind": "Hang" if sig == signal.SIGALRM else "Crash", "signal": sig})
-        else:
-            res.append({"kind": "Crash", "exit": os.WEXITSTATUS(status)})
+    for tag in res:
+        if len(res[tag]) < len(job["builds"]):
+            if os.WIFSIGNALED(status):
+                sig = os.WTERMSIG(status)
+                res[tag].append({"kind": "Hang" if sig == signal.SIGALRM else "Crash", "signal": sig})
+            else:
+                res[tag].append({"kind": "Crash", "exit": os.WEXITSTATUS(status)})
+            break
     return res
 
 
 def serve():
     """server loop: one JSON job per line on stdin -> one JSON answer per line on stdout"""
     sys.path.insert(0, REPO)
-    import awesomeyaml.config  # noqa  (import once; every history runs in a fresh fork of this pristine process)
-    import awesomeyaml.eval_context  # noqa
+    # import everything once (no build is performed): every history runs in a fresh fork of this pristine process
+    import gc
+    import importlib
+    import pkgutil
+    import awesomeyaml
+    import awesomeyaml.config  # noqa
+    for m in pkgutil.walk_packages(awesomeyaml.__path__, "awesomeyaml."):
+        try:
+            importlib.import_module(m.name)
+        except Exception:  # noqa
+            pass
+    import warnings  # noqa
+    gc.collect()
+    gc.freeze()
     for line in sys.stdin:
         job = json.loads(line)
-        ans = {"id": job["id"]}
-        if job.get("impl", True):
-            ans["impl"] = _forked(run_impl, job["builds"])
-        for key in job.get("natives", []):          # names of per-build globals variants: "globals", "globals_asis"
-            ans[key] = _forked(run_native, [dict(b, globals=b.get(key) or {}) for b in job["builds"]])
+        ans = _forked(job)
+        ans["id"] = job["id"]
         sys.stdout.write(json.dumps(ans) + "\n")
         sys.stdout.flush()
 
